@@ -262,3 +262,38 @@ Definition fits_extra (o : sop) (l : list Z) : Prop :=
    values the 32-bit Java word represents as the 64-bit word of the other routes does *)
 Definition fits_java (o : sop) (l : list Z) : Prop :=
   Forall2 fits_ty (fst (sop_sig o)) l /\ fits_ty (snd (sop_sig o)) (spec o l) /\ fits_extra o l.
+
+(* ---------------------------------------------------------------- big-integer literals (genjava.c:gj0BInt) *)
+
+(* what gj0BInt emits for an immediate or boxed big integer constant *)
+Inductive blit :=
+| BZero                         (* BigInteger.ZERO *)
+| BOne                          (* BigInteger.ONE *)
+| BValueOf (lit : Z)            (* BigInteger.valueOf(<int literal>), the literal as jcLiteralInteger prints it *)
+| BNewString (z : Z).           (* new BigInteger("<decimal digits of z>") *)
+
+(* read from the sources: largest bintLength for which the valueOf form is used; width of the C conversion
+   jcLiteralInteger prints with (32 for "%d", 64 for "%ld"); whether gj0BInt still has the shape modelled here *)
+Record bint_params := mkbp { bp_maxlen : Z; bp_fmt_bits : Z; bp_shape_ok : bool }.
+
+(* bintLength: number of bits of |v| *)
+Definition bitlen (v : Z) : Z := if v =? 0 then 0 else Z.log2 (Z.abs v) + 1.
+
+Definition fmt_int (bits : Z) (v : Z) : Z :=
+  if bits =? 32 then wrap S32 v else if bits =? 64 then wrap S64 v else 0.
+
+(* `small' = the constant is an immediate BInt (bintIsSmall); the theorem quantifies over it *)
+Definition emit_bint (p : bint_params) (small : bool) (v : Z) : blit :=
+  if v =? 0 then BZero
+  else if small && (bitlen v <=? bp_maxlen p) then
+    if v =? 1 then BOne else BValueOf (fmt_int (bp_fmt_bits p) v)
+  else BNewString v.
+
+(* value of the emitted Java expression; a decimal literal outside int is rejected by javac *)
+Definition denote_blit (b : blit) : option Z :=
+  match b with
+  | BZero => Some 0
+  | BOne => Some 1
+  | BValueOf z => if int32b z then Some z else None
+  | BNewString z => Some z
+  end.
